@@ -220,7 +220,12 @@ def verify_function(eng, key, case_kinds=None, label_suffix=""):
                 g = eng.eval_spec(cl, s, {"result": result})
                 eng.emit(s, "post", "ensures[%d]" % i, g)
             for i, cl in enumerate(c.get("ghost_ensures") or []):
-                g = eng.eval_spec(cl, s, {"result": result})
+                try:
+                    g = eng.eval_spec(cl, s, {"result": result})
+                except Unsupported as ex:
+                    if "unresolved name" in str(ex):
+                        continue      # the path returned before this ghost variable came into existence
+                    raise
                 eng.emit(s, "post", "ghost_ensures[%d]" % i, g)
         elif tag == "raise":
             if payload in raises:
